@@ -113,5 +113,86 @@ def roundtrip_units():
     return out
 
 
+def coproc_unit():
+    """Coproc_Accepted() for the generic coprocessors (p0-p9, p12, p13): the access-control registers NSACR and CPACR
+    decide, by privilege and security state, whether the instruction is UNDEFINED; only accepted instructions reach
+    the (mock) coprocessor decode.  Without Virtualization Extensions (HCPTR traps not covered)."""
+    from pyvc.unit import Unit, values_eq
+    from pyvc.interp import PyRaise
+    from pyvc import sym
+    from pyvc.sym import lor, ite
+    from spec.rt import bit
+    from . import machine as MC
+    m = registry.mods()
+    A = m.arm_v6.ArmV6
+    UND = m.arm_exceptions.UndefinedInstructionException
+    uid = 'C12/fn:%s.ArmV6.coproc_accepted[generic coprocessors]' % A.__module__
+
+    def spec_denied(st, cp):
+        mode = bits(st['cpsr'], 4, 0)
+        secure = lor(lnot(st['cfg.have_security_ext']), bit(st['scr'], 0) == 0, mode == ST.MON)
+        ns_denied = land(st['cfg.have_security_ext'], lnot(secure), ((st['nsacr'] >> cp) & 1) == 0)
+        field = (st['cpacr'] >> (2 * cp)) & 3
+        denied = lor(ns_denied, field == 0, land(field == 1, mode == ST.USR))
+        unpred = land(lnot(ns_denied), field == 2)
+        return denied, unpred
+
+    def symbolic(eng):
+        mach = MC.SymMachine(eng, 'PMSA', 1, cfg_fixed={'have_virt_ext': False})
+        init = dict(mach.init)
+        cfg = mach.configs
+        eng.assume(lnot(ST.bad_mode(bits(init['cpsr'], 4, 0), cfg['have_security_ext'], cfg['have_virt_ext'])))
+        cp = eng.fresh_int('cp_num', 4)
+        eng.assume(land(cp != 10, cp != 11, cp != 14, cp != 15))
+        instr = eng.fresh_int('instr', 32)
+        if not eng.prefix:
+            eng.cover('state satisfiable')
+        contracts = {}
+        contracts.update(registry.l1())
+        contracts.update(registry.regview())
+        contracts.update(registry.l2())
+        eng.contracts = contracts
+        raised = None
+        try:
+            eng.call(A.coproc_accepted, [mach.cpu, cp, instr])
+        except PyRaise as e:
+            raised = e.exc.cls
+        denied, unpred = spec_denied(init, cp)
+        if raised is not None and issubclass(raised, UND):
+            eng.oblige('post', 'UNDEFINED only when NSACR / CPACR deny the access for this privilege and security state', lor(unpred, denied))
+        elif raised is not None and issubclass(raised, NotImplementedError):
+            eng.oblige('post', 'the coprocessor (mock decode) is reached only when the access is permitted', lor(unpred, lnot(denied)))
+        else:
+            eng.oblige('safe.host', 'coproc_accepted ends in %s' % getattr(raised, '__name__', 'a normal return'), False)
+            return
+        eng.oblige_all('frame', 'the access check changes no state', [(k, values_eq(v, init[k])) for k, v in mach.read().items()])
+
+    def replay(inputs, ob):
+        cpu = MC.native_cpu('PMSA', 1, overrides={'have_virt_ext': False}, fresh=True)
+        MC.install_native(cpu, dict(inputs), 'PMSA', 1)
+        init = MC.read_native(cpu, 'PMSA', 1)
+        cfgs = registry.mods().configurations.configurations.configs
+        for k in MC.CFG_BOOL + list(MC.CFG_INT):
+            init['cfg.' + k] = cfgs.get(k)
+        cp, instr = inputs.get('cp_num', 0), inputs.get('instr', 0)
+        got = 'returned'
+        import io
+        import contextlib
+        try:
+            with contextlib.redirect_stdout(io.StringIO()):
+                cpu.coproc_accepted(cp, instr)
+        except Exception as e:      # noqa
+            got = type(e).__name__
+        denied, unpred = spec_denied(init, cp)
+        text = 'coproc_accepted(p%d) mode=%s scr=%s nsacr=%s cpacr=%s: real %s ; architecture %s%s' % (
+            cp, hex(init['cpsr'] & 31), hex(init['scr']), hex(init['nsacr']), hex(init['cpacr']), got,
+            'UNDEFINED' if denied else 'accepted', ' (UNPREDICTABLE CPACR field)' if unpred else '')
+        if unpred:
+            return False, text
+        return (got == 'UndefinedInstructionException') != bool(denied), text
+
+    return Unit(uid, ['C12'], symbolic, replay, {'contracts': {}}, meta={'function': '%s.ArmV6.coproc_accepted' % A.__module__})
+
+
 def units(tier):
-    return roundtrip_units() + fn_units() + step.units(tier)
+    return roundtrip_units() + [coproc_unit()] + fn_units() + step.units(tier)
